@@ -8,6 +8,7 @@ repeated with the other outcome (no feasibility reasoning, no solver).  Loops ov
 iterables are unrolled; other loops are summarised by a first and a generic iteration.
 """
 import ast
+import os
 from fractions import Fraction
 
 from . import terms as T
@@ -122,6 +123,7 @@ class Interp:
         self.calls = []  # (qualname, args, kwargs, site, result)
         self.ext_calls = _Logged(self)  # (name, args, kwargs, site, result)
         self.timeline = []  # chronological ("call"|"ext", name, record)
+        self.decorated = {}  # id(FuncInfo) -> callable produced by applying its unmodelled decorators (once per run)
         self.stores = []  # (written tensor object, stored value, site) of every subscript store into a tensor
         self.call_ast = {}  # resolved callee name -> ast.Call nodes that invoked it (identity of the program model's nodes)
         self.stack = []
@@ -1018,6 +1020,12 @@ class Interp:
             raise Unsupported("inlining depth exceeded at %s" % func.qualname, node, self.site(node))
         if fv.self_val is not None and not func.is_static:
             args = [fv.self_val] + list(args)
+        # decorators without a built-in model are *applied* (the wrapper they return is what gets called); never ignored
+        if not getattr(func, "_undecorated", False) and func.qualname not in self.stubs:
+            pending = self._unmodelled_decorators(func)
+            if pending:
+                dec = self._decorated(fv, pending, node)
+                return self.call_value(dec, list(args), kwargs, node)
         # decorators with known semantics
         for kind, det in func.decorators:
             if kind == "call" and det[0].endswith("deprecated_kwarg"):
@@ -1162,6 +1170,50 @@ class Interp:
                 else:
                     raise RaiseEx("TypeError", self.site(node), "missing argument %s for %s" % (p, func.qualname), True)
         return env
+
+    MODELLED_DECORATORS = ("deprecated_kwarg", "auto_unsqueeze_args")
+
+    def _unmodelled_decorators(self, func):
+        nd = getattr(func, "node", None)
+        out = []
+        for d in getattr(nd, "decorator_list", None) or []:
+            if isinstance(d, ast.Name) and d.id in ("property", "staticmethod", "classmethod", "abstractmethod"):
+                continue
+            if isinstance(d, ast.Attribute) and d.attr in ("setter", "getter", "deleter", "abstractmethod", "abstractproperty"):
+                continue
+            txt = ast.unparse(d.func if isinstance(d, ast.Call) else d)
+            last = txt.split(".")[-1]
+            if last in self.MODELLED_DECORATORS and os.environ.get("QSA_MODELLED_DECORATORS"):
+                continue  # (debug switch) use the built-in models instead of interpreting the repository's decorators
+            if last == "wraps":  # functools.wraps(f): copies metadata only
+                continue
+            out.append(d)
+        return out
+
+    def _decorated(self, fv, pending, node):
+        func = fv.func
+        key = id(func)
+        if key in self.decorated:
+            return self.decorated[key]
+        import copy
+
+        raw = copy.copy(func)
+        raw._undecorated = True
+        cur = VFunc(raw, closure=fv.closure)
+        for d in reversed(pending):
+            fr = Frame(func, func.module, {}, self_cls=func.cls, closure=fv.closure)
+            self.frames.append(fr)
+            try:
+                dv = self.eval(d)
+            finally:
+                self.frames.pop()
+            if not isinstance(dv, (VFunc, VObj, VClass)):
+                raise Unsupported("decorator %s of %s has no model" % (ast.unparse(d), func.qualname), node, self.site(node))
+            cur = self.call_value(dv, [cur], {}, node)
+            if not isinstance(cur, (VFunc, VObj)):
+                raise Unsupported("decorator %s of %s does not return a callable the analyser can follow" % (ast.unparse(d), func.qualname), node, self.site(node))
+        self.decorated[key] = cur
+        return cur
 
     def instantiate(self, cls, args, kwargs, node):
         inst = Instance(cls)
